@@ -55,6 +55,11 @@ class NonShearMonitor:
         self.judge_gap = judge_gap
         self.undo = []
         self.objects_judged = 0
+        self.default_spectrum = None      # set by the end-to-end harness while a real Calculator is being built
+
+    def _spectrum(self, calc):
+        sp = getattr(calc, "_oracle_spectrum", None)
+        return sp if sp is not None else self.default_spectrum
 
     def attach(self):
         import cij.core.phonon_contribution.nonshear as ns
@@ -92,7 +97,7 @@ class NonShearMonitor:
         v = numpy.asarray(calc.v_array, dtype=float)
         ei, ej = (numpy.asarray(x, dtype=float) for x in obj.e)
         longi = self._kind(obj) == "longitudinal"
-        spec = getattr(calc, "_oracle_spectrum", None)
+        spec = self._spectrum(calc)
         out = {}
         if spec is not None:
             cache = calc.__dict__.setdefault("_oracle_cache", {})
@@ -185,7 +190,7 @@ class NonShearMonitor:
         ei, ej = (numpy.asarray(x, dtype=float) for x in obj.e)
         cv = numpy.asarray(calc.qha_calculator.volume_base.heat_capacity, dtype=float)
         out = {}
-        spec = getattr(calc, "_oracle_spectrum", None)
+        spec = self._spectrum(calc)
         if spec is not None:
             cache = calc.__dict__.setdefault("_oracle_cache", {})
             if "dpdt" not in cache:
@@ -447,3 +452,104 @@ class TaskMonitor:
                         ctx.violation("scheduler:task-evaluated-not-once", f"task {task.key!r} evaluated {n} times for the {store} results", cid)
                         break
         self.events = []
+
+
+# =====================================================================================
+# VRH / compliance / velocity judge (used on duck-typed fields in C07 and on real runs)
+# =====================================================================================
+def judge_vrh(ctx, calc, vb, case_id, tag="", rel=1e-9, vel_rel=1e-7):
+    """Compare everything CijVolumeBaseInterface ``vb`` reports with the full-tensor oracle
+    built from the reported adiabatic stiffness ``calc.modulus_adiabatic``.  Returns the
+    number of grid points judged."""
+    from .oracles import tensor as TT
+    nt, ntv = numpy.asarray(vb.t_array).shape[0], numpy.asarray(vb.v_array).shape[0]
+    c66 = numpy.zeros((nt, ntv, 6, 6))
+    for key, arr in calc.modulus_adiabatic.items():
+        a, b = (int(x) for x in key.voigt)
+        c66[..., a - 1, b - 1] = arr
+        c66[..., b - 1, a - 1] = arr
+    if not numpy.all(numpy.isfinite(c66)):
+        ctx.count("vrh:skipped_nonfinite_stiffness")
+        return 0
+    ev = numpy.linalg.eigvalsh(c66)
+    pd = ev[..., 0] > 1e-3 * ev[..., -1]
+    if not pd.any():
+        ctx.count("vrh:no_positive_definite_point")
+        return 0
+    ctx.count("vrh:grid_points_judged", int(pd.sum()))
+    safe = numpy.where(pd[..., None, None], c66, numpy.eye(6))
+    ref = TT.vrh_from_c66(safe)
+    names = {"bulk_modulus_voigt": "kv", "bulk_modulus_reuss": "kr", "bulk_modulus_voigt_reuss_hill": "kh",
+             "shear_modulus_voigt": "gv", "shear_modulus_reuss": "gr", "shear_modulus_voigt_reuss_hill": "gh"}
+    got = {}
+    for prop, rk in names.items():
+        try:
+            val = numpy.asarray(getattr(vb, prop))
+        except Exception as exc:
+            ctx.violation(f"vrh:{prop}:raises:{type(exc).__name__}", f"{tag}: reading {prop} raised {exc!r}", case_id)
+            continue
+        got[rk] = val
+        if val.shape != (nt, ntv):
+            ctx.violation(f"vrh:{prop}:shape", f"{tag}: {prop} has shape {val.shape}", case_id)
+            continue
+        err = numpy.abs(val - ref[rk])[pd] / numpy.abs(ref[rk])[pd]
+        ctx.maxi("vrh_err/tol", err.max() / rel)
+        if not (err.max() <= rel):
+            i = numpy.argwhere(pd)[int(numpy.argmax(err))]
+            ctx.violation(f"vrh:{prop}:mismatch", f"{tag}: {prop} = {val[tuple(i)]!r}, full-tensor value {ref[rk][tuple(i)]!r} "
+                          f"(ratio {val[tuple(i)] / ref[rk][tuple(i)]:.6g})", case_id)
+    for lo, mid, hi, nm in (("kr", "kh", "kv", "bulk"), ("gr", "gh", "gv", "shear")):
+        if lo in got and mid in got and hi in got:
+            slack = 1e-12 * numpy.abs(got[hi])
+            if numpy.any((got[lo] > got[mid] + slack)[pd]) or numpy.any((got[mid] > got[hi] + slack)[pd]):
+                ctx.violation(f"vrh:{nm}:bounds-order", f"{tag}: Reuss <= Hill <= Voigt violated for the {nm} modulus", case_id)
+    # reported compliances x reported stiffness = identity
+    comp = getattr(calc, "_compliances", None)
+    if comp is not None:
+        s66 = numpy.zeros((nt, ntv, 6, 6))
+        for key, arr in comp.items():
+            a, b = (int(x) for x in key.voigt)
+            s66[..., a - 1, b - 1] = arr
+            s66[..., b - 1, a - 1] = arr
+        prod = numpy.einsum("...ij,...jk->...ik", s66, c66)
+        err = numpy.abs(prod - numpy.eye(6))[pd]
+        ctx.maxi("compliance_identity_err/tol", err.max() / 1e-7)
+        if not (err.max() <= 1e-7):
+            ctx.violation("compliance:not-the-inverse", f"{tag}: reported s x reported c deviates from identity by {err.max():.3g}", case_id)
+        # attribute-style lookup must hand out exactly those arrays
+        for key, arr in comp.items():
+            a, b = (int(x) for x in key.voigt)
+            for nm in (f"s{a}{b}", f"s_{a}{b}"):
+                try:
+                    if not numpy.array_equal(getattr(vb, nm), arr):
+                        ctx.violation("lookup:s_ij-wrong-array", f"{tag}: volume_base.{nm} is not the stored compliance", case_id)
+                except AttributeError:
+                    ctx.violation("lookup:s_ij-missing", f"{tag}: volume_base.{nm} raises AttributeError although it is stored", case_id)
+    for key, arr in calc.modulus_adiabatic.items():
+        a, b = (int(x) for x in key.voigt)
+        st = "%d%d%d%d" % tuple(int(x) for x in key.standard)
+        try:
+            if not (numpy.array_equal(getattr(vb, f"c{a}{b}"), arr) and numpy.array_equal(getattr(vb, f"c{a}{b}s"), arr)
+                    and numpy.array_equal(getattr(vb, f"c_{a}{b}"), arr) and numpy.array_equal(getattr(vb, f"c{st}"), arr)):
+                ctx.violation("lookup:c_ij-wrong-array", f"{tag}: volume_base.c{a}{b}/c{a}{b}s/c_{a}{b}/c{st} is not the adiabatic modulus", case_id)
+            if not numpy.array_equal(getattr(vb, f"c{a}{b}t"), calc.modulus_isothermal[key]):
+                ctx.violation("lookup:c_ij_t-wrong-array", f"{tag}: volume_base.c{a}{b}t is not the isothermal modulus", case_id)
+        except AttributeError as exc:
+            ctx.violation("lookup:c_ij-missing", f"{tag}: lookup of c{a}{b} failed: {exc!r}", case_id)
+    # velocities: rho v_s^2 = G_VRH, rho v_p^2 = K_VRH + 4/3 G_VRH, rho = m/(N_A V), km/s
+    mass = float(calc.elast_data.cellmass)
+    v = numpy.asarray(vb.v_array, dtype=float)
+    for prop, mod in (("secondary_velocities", ref["gh"]), ("primary_velocities", ref["kh"] + 4.0 / 3.0 * ref["gh"])):
+        try:
+            val = numpy.asarray(getattr(vb, prop))
+        except Exception as exc:
+            ctx.violation(f"velocity:{prop}:raises:{type(exc).__name__}", f"{tag}: {exc!r}", case_id)
+            continue
+        want = U.velocity_kms(numpy.where(pd, mod, 1.0), mass, v[None, :])
+        err = (numpy.abs(val - want) / want)[pd]
+        ctx.maxi("velocity_err/tol", err.max() / vel_rel)
+        if not (err.max() <= vel_rel):
+            i = numpy.argwhere(pd)[int(numpy.argmax(err))]
+            ctx.violation(f"velocity:{prop}:mismatch", f"{tag}: {prop} = {val[tuple(i)]!r} km/s, oracle {want[tuple(i)]!r} "
+                          f"(ratio {val[tuple(i)] / want[tuple(i)]:.6g})", case_id)
+    return int(pd.sum())
